@@ -67,7 +67,7 @@ theorem C14_dispatch_exact (ops : List Op) (bus : BusId) (pgn : Nat) :
 
 /-- END TO END over histories of client operations, configuration calls, FRAME ARRIVALS in the CAN driver and
 `ParseMessages` polls, on any number of bus objects, any PGN-list configuration `c` and any initial receive side `r0`
-(slots, mode bits, frames already waiting).  `nodeRun`: a poll reads the (at most 20) oldest waiting frames, runs the
+(slots, mode bits, frames already waiting).  `nodeRun`: a poll reads the (at most `k`, a parameter of every poll) oldest waiting frames, runs the
 receive path of C02 (`N2k.Rx.rx`: `SetN2kCANBufMsg` for single frames, fast packets of any number of interleaved senders,
 TP.CM frames) on each and `RunMessageHandlers` for every message completed.  For EVERY history: no fault, and event by
 event (`CallsAgree`): the calls made during an event are, in order, exactly one per message the receive side completes
@@ -109,16 +109,17 @@ theorem C14_transport_frames_not_dispatched (cfg : Rx.Cfg) (st : Rx.St) (now : N
 
 example : ∃ q : QFrame, q.1.pgn = 60416 ∨ q.1.pgn = 60160 := ⟨(⟨7, 60416, 1, 255, 8, [32, 9, 0, 2, 255, 5, 248, 1]⟩, none), Or.inl rfl⟩
 
-/-- `ParseMessages` never takes a frame out of the driver without handing it to the receive path: a poll handles the (at
-most) 20 oldest waiting frames of its bus in order, leaves the rest waiting in order, and does not touch the other buses.
-So every frame of a burst of any length is handled exactly once, by this or a later poll. -/
-theorem C14_poll_loses_no_frame (c : BusId → Rx.Cfg) (r : RxSide) (b : BusId) (now : Nat) :
-    r.drv b = (r.drv b).take 20 ++ (rxTrack c r (.poll b now)).1.drv b ∧
-    (rxTrack c r (.poll b now)).2 =
-      (rxBatch (effCfg c r.mode b) now (r.st b) ((r.drv b).take 20)).2.map (fun m => (b, m)) ∧
-    ∀ b', b' ≠ b → (rxTrack c r (.poll b now)).1.drv b' = r.drv b' := by
+/-- `ParseMessages` never takes a frame out of the driver without handing it to the receive path, whatever its batch size
+`k` is (`MaxReadFramesOnParse`, 20 in the pinned tree; the property leaves it open): a poll handles the (at most) `k` oldest
+waiting frames of its bus in order, leaves the rest waiting in order, and does not touch the other buses.  So every frame of
+a burst of any length is handled exactly once, by this or a later poll. -/
+theorem C14_poll_loses_no_frame (c : BusId → Rx.Cfg) (r : RxSide) (b : BusId) (now k : Nat) :
+    r.drv b = (r.drv b).take k ++ (rxTrack c r (.poll b now k)).1.drv b ∧
+    (rxTrack c r (.poll b now k)).2 =
+      (rxBatch (effCfg c r.mode b) now (r.st b) ((r.drv b).take k)).2.map (fun m => (b, m)) ∧
+    ∀ b', b' ≠ b → (rxTrack c r (.poll b now k)).1.drv b' = r.drv b' := by
   refine ⟨?_, rfl, ?_⟩
-  · simp [rxTrack, upd, maxRead]
+  · simp [rxTrack, upd]
   · intro b' hb; simp [rxTrack, upd, hb]
 
 /-- handling a batch of frames is handling them one after the other: splitting a burst over polls changes nothing but
@@ -175,7 +176,7 @@ def demoEvs : List Ev :=
    .arrive 0 ⟨7, 60160, 9, 255, 8, [1, 1, 2, 3, 4, 5, 6, 7]⟩ none,
    .arrive 0 ⟨6, 129029, 1, 255, 8, [1, 7, 8, 9, 10, 255, 255, 255]⟩ none,
    .arrive 0 ⟨6, 129029, 2, 255, 8, [65, 27, 28, 29, 30, 255, 255, 255]⟩ none,
-   .poll 1 1000, .poll 0 1001]
+   .poll 1 1000 20, .poll 0 1001 20]
 
 def demoRx : RxSide := ⟨fun _ _ => false, fun _ => Rx.init 5, fun _ => []⟩
 
